@@ -127,11 +127,14 @@ def run(ctx, res):
         # ---- COUNT-AGREE
         src, pred = shape
         g = P.require_fn("test_runner::describe_tests")
+        # the failure count of describe_tests: the local defined as `<..>.tests.iter().filter(<closure>).count()`
         gl = None
-        for l, d in enumerate(g.locals):
-            if d.get("name") == "tests_failed":
-                gl = l
-        gshape = fail_count_shape(P, g, gl) if gl is not None else None
+        gshape = None
+        for l in range(len(g.locals)):
+            sh_ = fail_count_shape(P, g, l)
+            if sh_ is not None:
+                gl, gshape = l, sh_
+                break
         if pred != "is_some(.1)":
             res.bad("COUNT-AGREE", "test_runner::run_tests_in_files # predicate",
                     "the failure count is not `filter(|(_, err, _)| err.is_some())` (found %s)" % pred, f.loc())
@@ -157,25 +160,38 @@ def run(ctx, res):
         else:
             res.bad("COUNT-AGREE", "test_runner::run_tests_in_files # calls",
                     "expected one eval_tests and one describe_tests call (found %d, %d)" % (len(evcalls), len(dcalls)), f.loc())
-        # passed = total - failed in describe_tests
+        # passed = total - failed in describe_tests: a subtraction whose left operand is `<..>.tests.len()` and whose right
+        # operand is the failure count found above (locals identified by what defines them, not by name)
+        def rooted_local(op):
+            q = M.op_place(op)
+            for _ in range(6):
+                if q is None:
+                    return None
+                if g.local_name(q["l"]) or q["l"] == gl:
+                    return q["l"]
+                d_ = g.single_def(q["l"])
+                if d_ is None or d_[1] == "term" or d_[2]["rv"]["k"] != "use":
+                    return q["l"]
+                q = M.op_place(d_[2]["rv"]["a"])
+            return None
+
+        def is_total(l):
+            d_ = g.single_def(l) if l is not None else None
+            if not d_ or d_[1] != "term" or not (M.callee_name(d_[2]) or "").endswith("::len"):
+                return False
+            r_ = g.root_of(d_[2]["args"][0], through_named=True)
+            return r_[0] == "place" and g.field_path(r_[1])[-1:] == ["tests"]
         okp = False
-        for l, d in enumerate(g.locals):
-            if d.get("name") == "tests_passed":
-                dd = g.defs.get(l, [])
-                for (bi, si, stt) in dd:
-                    if si != "term" and stt["rv"]["k"] == "use":
-                        rr = g.root_of(stt["rv"]["a"])
-                        src2 = M.op_place(stt["rv"]["a"])
-                        if src2 is not None:
-                            d2 = g.single_def(src2["l"])
-                            if d2 and d2[1] != "term" and d2[2]["rv"]["k"] == "binop" and d2[2]["rv"]["op"].startswith("Sub"):
-                                a = describe_operand(g, d2[2]["rv"]["a"])
-                                b = describe_operand(g, d2[2]["rv"]["b"])
-                                okp = (a == "total_tests" and b == "tests_failed")
+        for b_ in g.blocks:
+            for stt in b_["stmts"]:
+                if stt.get("s") == "assign" and stt["rv"]["k"] == "binop" and stt["rv"]["op"].startswith("Sub"):
+                    la, lb_ = rooted_local(stt["rv"]["a"]), rooted_local(stt["rv"]["b"])
+                    if lb_ == gl and gl is not None and is_total(la):
+                        okp = True
         if okp:
-            res.ok("COUNT-AGREE", "describe_tests: tests_passed = total_tests - tests_failed")
+            res.ok("COUNT-AGREE", "describe_tests: passed = <summary>.tests.len() - <failure count>")
         else:
-            res.bad("COUNT-AGREE", "test_runner::describe_tests # passed", "tests_passed is not total_tests - tests_failed", g.loc())
+            res.bad("COUNT-AGREE", "test_runner::describe_tests # passed", "the number of passed tests is not `tests.len()` minus the failure count", g.loc())
 
     # ---- SELECTION-FILTER: which tests run is decided only by "is a test" and the -n name filter. Any other
     # condition on the way to `test_items.push` silently drops tests from the run, the counts and the exit status.
